@@ -331,10 +331,10 @@ impl Program {
     }
 
     pub fn return_to_last_gosub(&mut self) -> Result<(), TracedInterpreterError> {
-        self.breakpoint = None;
         let Some(stack_frame) = self.stack.pop() else {
             return Err(InterpreterError::ReturnWithoutGosub.into());
         };
+        self.breakpoint = None;
         self.location = stack_frame.return_location;
         Ok(())
     }
